@@ -298,7 +298,8 @@ pub fn run_c05(thorough: bool, seed: u64, shards: usize) -> (Report, String) {
                     c.env("LANG", "tr_TR.UTF-8").env("LC_ALL", "tr_TR.UTF-8").env("TZ", "Asia/Tokyo").current_dir("/");
                 }
                 2 => {
-                    c.env("RUST_LOG", "trace").env("HOME", "/nonexistent").env("RUST_BACKTRACE", "1").current_dir("/tmp");
+                    // logging off in this process (it is on, at Trace level, in the others)
+                    c.env("XSG_LOG", "off").env("RUST_LOG", "trace").env("HOME", "/nonexistent").env("RUST_BACKTRACE", "1").current_dir("/tmp");
                 }
                 3 => {
                     c.env_clear();
@@ -357,7 +358,7 @@ pub fn run_c05(thorough: bool, seed: u64, shards: usize) -> (Report, String) {
         rep.inconclusive("fewer than two determinism child processes completed");
     }
     let rule = format!(
-        "{} histories (three quarters from a collision profile: sibling names a-b/a_b/a.b/aB/Foo/foo..., attribute/child/text identifier clashes, repeated parents with empty occurrences; one quarter general), each parsed and rendered {} more times in the same thread (fresh RandomState per HashMap), every 8th also by {} threads (independent parse+render and concurrent rendering of one shared tree), and the first {} cases by {} fresh processes compared by 128-bit hash — the processes execute the cases in different orders (forward, backward, shuffled: state leaking between calls would show) and under different environments (locale/time zone/cwd, RUST_LOG/HOME, empty environment). A canary HashMap filled with the same child names records whether iteration orders actually varied; non-trivial = cases (>= 3 sibling names) where >= 2 canary orders were seen; distinct by rendered bytes.",
+        "{} histories (three quarters from a collision profile: sibling names a-b/a_b/a.b/aB/Foo/foo..., attribute/child/text identifier clashes, repeated parents with empty occurrences; one quarter general), each parsed and rendered {} more times in the same thread (fresh RandomState per HashMap), every 8th also by {} threads (independent parse+render and concurrent rendering of one shared tree), and the first {} cases by {} fresh processes compared by 128-bit hash — the processes execute the cases in different orders (forward, backward, shuffled: state leaking between calls would show) and under different environments (locale/time zone/cwd; HOME pointing nowhere and the `log` sink switched off while it is on at Trace level elsewhere; empty environment). A canary HashMap filled with the same child names records whether iteration orders actually varied; non-trivial = cases (>= 3 sibling names) where >= 2 canary orders were seen; distinct by rendered bytes.",
         n, reps, threads, np_cases, procs
     );
     (rep, rule)
